@@ -221,7 +221,7 @@ def templates(tier, seed):
         n = len(par)
         perms = [pp for pp in itertools.permutations(range(n)) if list(pp) != list(range(n))]
         for perm in rs.sample(perms, min(len(perms), 3 if n == 3 else 4)):
-            sysn.append(dict(fam="order", shape=shape, kinds=kinds, sp=0, perm=list(perm), sysn=True))
+            sysn.append(dict(fam="order", shape=shape, kinds=kinds, sp=0, perm=list(perm), sysn=True, dflt=(i % 4 == 1)))
     tds += sysn
     for bad in ("unknown-id", "cycle2", "cycle3", "self", "no-bbox", "unknown-surround", "unknown-connector", "cycle-size"):
         tds.append(dict(fam="unsat", case=bad))
@@ -288,8 +288,11 @@ def build(td, wrong=False):
         m, vs = node(k, ids[i], [ids[j] for j in parents[i]], len(vars_), sp)
         marks.append(m)
         vars_ += vs
-    doc_sorted = "<svg>" + "".join(marks) + "</svg>"
-    doc_perm = "<svg>" + "".join(marks[i] for i in perm) + "</svg>"
+    # element defaults (appended attributes such as transform included) are applied once per element, however often it is retried
+    dflt = ('<defaults><rect transform="translate(3 0)" opacity="0.5"/><circle transform="translate(0 2)"/><ellipse class="dflt" transform="translate(1 1)"/></defaults>'
+            if td.get("dflt") else "")
+    doc_sorted = "<svg>" + dflt + "".join(marks) + "</svg>"
+    doc_perm = "<svg>" + dflt + "".join(marks[i] for i in perm) + "</svg>"
     has_conn = any(k in ("K", "KL", "KP") for k in kinds)
 
     def check(r):
@@ -347,5 +350,5 @@ def build(td, wrong=False):
         return all(perm.index(j) < perm.index(i) and firstpass(j) for j in parents[i])
     clip_first = any(k in ("CG", "CP") and not firstpass(i) for i, k in enumerate(kinds))
     role = ("C10/forward-reference-through-use" if "U" in kinds else "C10/forward-reference-through-clip-path" if clip_first else "C10/order/" + "-".join(kinds))
-    name = f"order/{shape}/{'-'.join(kinds)}/sp{td['sp']}/{''.join(map(str, perm))}"
+    name = f"order/{shape}/{'-'.join(kinds)}/sp{td['sp']}/{''.join(map(str, perm))}" + ("/dflt" if td.get("dflt") else "")
     return Template(name, [doc_perm, doc_sorted], vars_, check, family=f"order-{shape}", role=role, cap=3 if has_conn else 6, explore=not has_conn)
